@@ -675,6 +675,11 @@ var escapedPathSep = func() []byte {
 	return bytes.Trim(s, "\"")
 }()
 
+// A json string may also spell any character, including the path separator,
+// as a \uXXXX escape, so the absence of escapedPathSep in the raw bytes
+// proves nothing about a value which contains one of those.
+var unicodeEscapePrefix = []byte(`\u`)
+
 // Get strings appearing in data as deserialized from json, e.g. recursively
 // searching map[string]interface{}, []interface{} and string.  Ignores bool
 // and json.Number/float64.  Ignores strings which do not contain a path
@@ -715,7 +720,8 @@ func getMaybeFileNames(value json.Marshaler) []string {
 		if len(value) == 0 || bytes.Equal(value, nullBytes) {
 			return nil
 		}
-		if !bytes.Contains(value, escapedPathSep) {
+		if !bytes.Contains(value, escapedPathSep) &&
+			!bytes.Contains(value, unicodeEscapePrefix) {
 			return nil
 		}
 		if value[0] == '[' {
